@@ -229,6 +229,34 @@ pub fn run_c13(tier: Tier) -> i32 {
         let m = TwinModel { cfg: c.clone(), alphabet: alpha.clone() };
         run.explore(&format!("twin [{}]", c.label().replace("cw20", "cw20||native ")), json!({"cfg": to_val(&c)}), &m, &seeds, &Limits::new(d));
     }
+    // a position that a third party's trade (a family of sizes) has left with an equity around zero - a little above,
+    // a little below, by less and by more than the fee of the next order - and that its owner then reduces,
+    // reverses (with and without remainder) or closes, fees on
+    {
+        let mut fam = vec![];
+        for long in [true, false] {
+            for n in [150u128, 160, 165, 170, 175, 180, 185, 190, 195, 200, 210, 230] {
+                fam.push(vec![
+                    Act::open("alice", long, SIZE_M.0, SIZE_M.1),
+                    Act::blk(15),
+                    Act::open("bob", !long, n * D, D),
+                    Act::blk(15),
+                ]);
+            }
+        }
+        let mut al = vec![];
+        for (mg, l) in [SIZE_S, SIZE_M, (3 * D, 2 * D), SIZE_L] {
+            for buy in [true, false] {
+                al.push(Act::Open { t: "alice".into(), v: 0, buy, margin: mg, lev: l, limit: 0 });
+            }
+        }
+        al.push(Act::close("alice"));
+        al.push(Act::Dep { t: "alice".into(), v: 0, amt: D });
+        al.push(Act::Wd { t: "alice".into(), v: 0, amt: D });
+        let c = mk(true, 0);
+        let m = TwinModel { cfg: c.clone(), alphabet: al };
+        run.explore(&format!("twin, equity around zero (family of third-party trades) [{}]", c.label().replace("cw20", "cw20||native ")), json!({"cfg": to_val(&c)}), &m, &fam, &Limits::new(tier.pick(1, 2)));
+    }
     // the explorations shared with the engine-level checks: configuration changed mid-history, dust positions
     let mut extra = vec![];
     crate::props::engprops::push_cfgchange(&mut extra, tier.pick(3, 4));
